@@ -73,8 +73,20 @@ func AllConfigs() []Config {
 	return cs
 }
 
+// DebugLog turns the simulator's debug log on for the machines built by New
+// (development aid).
+var DebugLog bool
+
 // New builds a fresh machine.
 func New(c Config, memBytes int) VM {
+	vm := newVM(c, memBytes)
+	if DebugLog {
+		vm.Context().Debug = true
+	}
+	return vm
+}
+
+func newVM(c Config, memBytes int) VM {
 	p := c.Par
 	switch c.Variant {
 	case "mvp1":
